@@ -2,12 +2,18 @@ use crate::{
     emulator::Emulator,
     error::{SnapshotLoadError, SnapshotSaveError},
     host::{DataRecorder, Host, LoadableAsset, SeekFrom, SeekableAsset},
-    zx::{joy::kempston, mouse::kempston::KempstonMouse, video::colors::ZXColor},
+    zx::{
+        joy::kempston,
+        machine::ZXMachine,
+        memory::PAGE_SIZE,
+        mouse::kempston::KempstonMouse,
+        video::colors::ZXColor,
+    },
     Result,
 };
 
+use alloc::vec;
 use alloc::vec::Vec;
-use alloc::{str::from_utf8, vec};
 #[cfg(feature = "zlib")]
 use miniz_oxide::inflate::decompress_to_vec_zlib_with_limit;
 
@@ -31,16 +37,34 @@ const ZXSTRF_COMPRESSED: u32 = 1;
 const ZXST_HEADER_SIZE: usize = 8; // The zx-state header
 const ZXST_BLOCK_HEADER_SIZE: usize = 8; // The header for each block
 
+const ZXST_CRTR_MIN_SIZE: usize = 36;
+const ZXST_Z80R_MIN_SIZE: usize = 37;
+const ZXST_SPCR_MIN_SIZE: usize = 4;
+const ZXST_AY_MIN_SIZE: usize = 18;
+const ZXST_KEYB_MIN_SIZE: usize = 5;
+const ZXST_AMXM_MIN_SIZE: usize = 1;
+const ZXST_RAMP_HEADER_SIZE: usize = 3;
+
+/// Blocks shorter than their fixed part are malformed
+fn ensure_block_size(block_data: &[u8], min_size: usize) -> Result<()> {
+    if block_data.len() < min_size {
+        return Err(SnapshotLoadError::InvalidSZXFile.into());
+    }
+    Ok(())
+}
+
 // Process Creator (CRTR) block
-fn process_crtr_block<H: Host>(_: &mut Emulator<H>, block_data: &[u8]) {
-    let crtr_name_bytes = &block_data[0..33];
-    let _ = from_utf8(crtr_name_bytes).unwrap();
-    let _ = u16::from_le_bytes([block_data[33], block_data[34]]);
-    let _ = u16::from_le_bytes([block_data[35], block_data[36]]);
+fn process_crtr_block<H: Host>(_: &mut Emulator<H>, block_data: &[u8]) -> Result<()> {
+    // Creator name and version are informational only (and not required to be valid UTF-8)
+    ensure_block_size(block_data, ZXST_CRTR_MIN_SIZE)
 }
 
 // Process ZXSTZ80REGS (Z80R) block
-fn process_z80r_block<H: Host>(emulator: &mut Emulator<H>, block_data: &[u8]) {
+fn process_z80r_block<H: Host>(emulator: &mut Emulator<H>, block_data: &[u8]) -> Result<()> {
+    ensure_block_size(block_data, ZXST_Z80R_MIN_SIZE)?;
+    if block_data[28] > 2 {
+        return Err(SnapshotLoadError::InvalidSZXFile.into());
+    }
     // AF
     emulator
         .cpu
@@ -134,13 +158,14 @@ fn process_z80r_block<H: Host>(emulator: &mut Emulator<H>, block_data: &[u8]) {
     // IM
     emulator.cpu.set_im(block_data[28]);
 
-    // dwCyclesStart
+    // dwCyclesStart (position inside the current frame)
     emulator.controller.frame_clocks = u32::from_le_bytes([
         block_data[29],
         block_data[30],
         block_data[31],
         block_data[32],
-    ]) as usize;
+    ]) as usize
+        % emulator.settings.machine.specs().clocks_frame;
 
     // chHoldIntReqCycles
     // Ignored block_data 33
@@ -166,10 +191,16 @@ fn process_z80r_block<H: Host>(emulator: &mut Emulator<H>, block_data: &[u8]) {
         .cpu
         .regs
         .set_mem_ptr(u16::from_le_bytes([block_data[35], block_data[36]]));
+    Ok(())
 }
 
 // Process ZXSTSPECREGS (SPCR) block
-fn process_spcr_block<H: Host>(emulator: &mut Emulator<H>, machine_id: u32, block_data: &[u8]) {
+fn process_spcr_block<H: Host>(
+    emulator: &mut Emulator<H>,
+    machine_id: u32,
+    block_data: &[u8],
+) -> Result<()> {
+    ensure_block_size(block_data, ZXST_SPCR_MIN_SIZE)?;
     // ch7ffd
     if machine_id < ZXST_MID_128K {
         emulator.controller.write_7ffd(0); // Always 0 for 16k and 48k
@@ -191,12 +222,18 @@ fn process_spcr_block<H: Host>(emulator: &mut Emulator<H>, machine_id: u32, bloc
     // chBorder
     // Setting the border after the out to 0xfe above because that too
     // sets the border color.
-    emulator.controller.border_color = ZXColor::from_bits(block_data[0]);
+    emulator.controller.border_color = ZXColor::from_bits(block_data[0] & 0x07);
+    Ok(())
 }
 
 // Process ZXSTAYBLOCK (AY00)
 #[cfg(all(feature = "sound", feature = "ay"))]
-fn process_ay_block<H: Host>(emulator: &mut Emulator<H>, machine_id: u32, block_data: &[u8]) {
+fn process_ay_block<H: Host>(
+    emulator: &mut Emulator<H>,
+    machine_id: u32,
+    block_data: &[u8],
+) -> Result<()> {
+    ensure_block_size(block_data, ZXST_AY_MIN_SIZE)?;
     // chFlags
     let flags = block_data[0] as u32;
     if machine_id < ZXST_MID_128K {
@@ -218,10 +255,12 @@ fn process_ay_block<H: Host>(emulator: &mut Emulator<H>, machine_id: u32, block_
         // chAyRegs
         emulator.controller.mixer.ay.set_regs(&block_data[2..]);
     }
+    Ok(())
 }
 
 // Process ZXSTKEYB (KEYB)
-fn process_keyb_block<H: Host>(emulator: &mut Emulator<H>, block_data: &[u8]) {
+fn process_keyb_block<H: Host>(emulator: &mut Emulator<H>, block_data: &[u8]) -> Result<()> {
+    ensure_block_size(block_data, ZXST_KEYB_MIN_SIZE)?;
     // dwFlags
     // ignored for now as only issue 2 is emulated
     let _flags = u32::from_le_bytes([block_data[0], block_data[1], block_data[2], block_data[3]]);
@@ -233,10 +272,12 @@ fn process_keyb_block<H: Host>(emulator: &mut Emulator<H>, block_data: &[u8]) {
     } else {
         emulator.controller.kempston = None;
     }
+    Ok(())
 }
 
 // Process ZXSTMOUSE (AMXM)
-fn process_amxm_block<H: Host>(emulator: &mut Emulator<H>, block_data: &[u8]) {
+fn process_amxm_block<H: Host>(emulator: &mut Emulator<H>, block_data: &[u8]) -> Result<()> {
+    ensure_block_size(block_data, ZXST_AMXM_MIN_SIZE)?;
     // chType
     // Only Kempston mouse is supported
     let mouse = block_data[0] as u32;
@@ -249,6 +290,7 @@ fn process_amxm_block<H: Host>(emulator: &mut Emulator<H>, block_data: &[u8]) {
     } else {
         emulator.controller.mouse = None;
     }
+    Ok(())
 }
 
 // Process ZXSTRAMPAGE (RAMP)
@@ -257,6 +299,7 @@ fn process_ramp_block<H: Host>(
     machine_id: u32,
     block_data: &[u8],
 ) -> Result<()> {
+    ensure_block_size(block_data, ZXST_RAMP_HEADER_SIZE)?;
     // wFlags
     let flags = u16::from_le_bytes([block_data[0], block_data[1]]) as u32;
 
@@ -272,6 +315,15 @@ fn process_ramp_block<H: Host>(
         };
     }
 
+    // Pages which the machine does not have can't be restored
+    let ram_pages = match emulator.settings.machine {
+        ZXMachine::Sinclair48K => 3,
+        ZXMachine::Sinclair128K => 8,
+    };
+    if page_num >= ram_pages {
+        return Err(SnapshotLoadError::InvalidSZXFile.into());
+    }
+
     let page_data = emulator.controller.memory.ram_page_data_mut(page_num);
 
     if flags & ZXSTRF_COMPRESSED != 0 {
@@ -282,17 +334,21 @@ fn process_ramp_block<H: Host>(
         {
             let compressed_data: Vec<u8> = block_data[3..].to_vec();
             match decompress_zlib_stream(&compressed_data) {
-                Ok(data) => {
+                Ok(data) if data.len() >= PAGE_SIZE => {
                     return {
                         page_data.copy_from_slice(&data[..page_data.len()]);
                         Ok(())
                     }
                 }
+                Ok(_) => return Err(SnapshotLoadError::InvalidSZXFile.into()),
                 Err(_) => return Err(SnapshotLoadError::InvalidSZXFile.into()),
             }
         }
     } else {
-        let uncompressed_data: Vec<u8> = block_data[3..].to_vec();
+        let uncompressed_data = &block_data[3..];
+        if uncompressed_data.len() < PAGE_SIZE {
+            return Err(SnapshotLoadError::InvalidSZXFile.into());
+        }
         page_data.copy_from_slice(&uncompressed_data[..page_data.len()]);
     }
 
@@ -315,7 +371,7 @@ where
     H: Host,
     A: LoadableAsset + SeekableAsset,
 {
-    let _ = asset.seek(SeekFrom::End(0))?;
+    let file_size = asset.seek(SeekFrom::End(0))?;
     let mut cursor_pos = 0;
     asset.seek(SeekFrom::Start(0))?;
 
@@ -323,16 +379,8 @@ where
     let mut header = [0u8; ZXST_HEADER_SIZE];
     asset.read_exact(&mut header)?;
     cursor_pos += ZXST_HEADER_SIZE;
-    let magic_bytes = &[header[0], header[1], header[2], header[3]];
-    let magic_str = from_utf8(magic_bytes);
-
-    match magic_str {
-        Ok(magic_data) => {
-            if !magic_data.eq("ZXST") {
-                return Err(SnapshotLoadError::InvalidSZXFile.into());
-            }
-        }
-        Err(_) => return Err(SnapshotLoadError::InvalidSZXFile.into()),
+    if &header[0..4] != b"ZXST" {
+        return Err(SnapshotLoadError::InvalidSZXFile.into());
     }
     let _ = header[4];
     let _ = header[5];
@@ -352,14 +400,19 @@ where
             block_header[6],
             block_header[7],
         ]);
-        let id_bytes = &[
+        let mut id = [
             block_header[0],
             block_header[1],
             block_header[2],
             block_header[3],
         ];
-        let id_str = from_utf8(id_bytes).unwrap().to_uppercase();
+        id.make_ascii_uppercase();
         cursor_pos += ZXST_BLOCK_HEADER_SIZE;
+
+        // Block can't be bigger than the rest of the file
+        if size as usize > file_size.saturating_sub(cursor_pos) {
+            return Err(SnapshotLoadError::InvalidSZXFile.into());
+        }
 
         // ZXST Block Data
         asset.seek(SeekFrom::Start(cursor_pos))?;
@@ -369,27 +422,27 @@ where
             return Err(SnapshotLoadError::InvalidSZXFile.into());
         }
 
-        match id_str.as_str() {
-            "CRTR" => {
-                process_crtr_block(emulator, &block_data);
+        match &id {
+            b"CRTR" => {
+                process_crtr_block(emulator, &block_data)?;
             }
-            "Z80R" => {
-                process_z80r_block(emulator, &block_data);
+            b"Z80R" => {
+                process_z80r_block(emulator, &block_data)?;
             }
-            "SPCR" => {
-                process_spcr_block(emulator, machine_id, &block_data);
+            b"SPCR" => {
+                process_spcr_block(emulator, machine_id, &block_data)?;
             }
             #[cfg(all(feature = "sound", feature = "ay"))]
-            "AY\0\0" => {
-                process_ay_block(emulator, machine_id, &block_data);
+            b"AY\0\0" => {
+                process_ay_block(emulator, machine_id, &block_data)?;
             }
-            "KEYB" => {
-                process_keyb_block(emulator, &block_data);
+            b"KEYB" => {
+                process_keyb_block(emulator, &block_data)?;
             }
-            "AMXM" => {
-                process_amxm_block(emulator, &block_data);
+            b"AMXM" => {
+                process_amxm_block(emulator, &block_data)?;
             }
-            "RAMP" => {
+            b"RAMP" => {
                 process_ramp_block(emulator, machine_id, &block_data)?;
             }
 
